@@ -33,9 +33,9 @@ EV_PROP = {
 ACTIONS = ["Send", "TrySend", "WhenEmpty", "SendWake", "WhenFlushed", "FlushRet", "DropSender",
            "RecvTake", "IdleWake", "AttemptEnd", "RetryWake"]
 
-QUICK = ["q1", "q2", "q3", "kill"]
-QUICK_EVERY = {"q1": 2, "q2": 5, "q3": 1, "kill": 3}     # quick: seeded sample of the transitions
-THOROUGH = ["q1", "q2", "q3", "kill", "t3", "t1", "t2", "t1sim", "t2sim"]
+QUICK = ["q1", "q2", "q3", "q4", "q5", "kill"]
+QUICK_EVERY = {"q1": 2, "q2": 5, "q3": 1, "q4": 1, "q5": 3, "kill": 3}     # quick: seeded sample of the transitions
+THOROUGH = ["q1", "q2", "q3", "q4", "q5", "kill", "t3", "t1", "t2", "t1sim", "t2sim"]
 SIM_BEHAVIOURS = 6000     # per worker
 NSHARDS = 12
 
@@ -79,8 +79,11 @@ def run(ctx, prop):
                    "Batcher.tla (%s): invariant %s violated by the design" % (name, r.violated),
                    {"kind": "tlc-counterexample", "counterexample": r.counterexample[:80]})
             continue
-        must = [a for a in ACTIONS if not (a in ("WhenEmpty", "SendWake") and name in ("q2", "q3", "t3"))
-                and not (a == "TrySend" and name == "t3")]
+        must = [a for a in ACTIONS if not (a in ("WhenEmpty", "SendWake") and name in ("q2", "q3", "q4", "q5", "t3"))
+                and not (a == "TrySend" and name in ("t3", "q4", "q5"))
+                and not (a == "RetryWake" and name == "q4" and False)]
+        if name == "q4":
+            must.append("CbReturn")
         if not sim:
             ctx.require_actions(r, must, name)
         cases = os.path.join(ctx.out, "cases-%s.ndjson" % name)
@@ -197,6 +200,10 @@ def run(ctx, prop):
     ctx.cov["traces_validated_against_impl"] += sum(1 for t in all_traces if t["config"] == "stress")
     for t, evn, idx, inv in rejected:
         p = "C09" if inv in ("QueueBounded",) else "C06" if inv == "AccNoDup" else EV_PROP.get(evn.get("ev"), "C06")
+        if evn.get("ev") == "CallerPanicked" and evn.get("op") == "send":
+            p = "C08+C09"
+        if evn.get("ev") == "Ret":
+            p = "C06+C08"      # retry policy: re-delivery of the remainder / per-batch budget
         if evn.get("ev") == "Fired" and sum(1 for e in t["trace"][:idx] if e.get("ev") == "Fired" and e.get("w") == evn.get("w")):
             p = "C08"   # fired twice
         report(p, "level A (ChannelTrace.tla) rejects the recorded execution at event %d %s (%s); level-B differences: %s" % (
